@@ -64,17 +64,29 @@ def rand_source(rng, id):
                           rand_bytes(rng, 3, b'iIcl['))
 
 
-def rand_log(rng, n_entries=None, invalid_rate=0.0, unknown_rate=0.0, max_args=6):
+def rand_log(rng, n_entries=None, invalid_rate=0.0, unknown_rate=0.0, max_args=6, kinds=None):
     """A list of payloads: sources (with re-definitions), writer props, clock syncs, events.
     With invalid_rate > 0 also invalid entries of the kinds C14 lists."""
     if n_entries is None:
         n_entries = rng.choice([0, 1, 2, 3, 5, 8, 13, 21])
     pool = []
     out = []
+    bad = []          # unknown source ids used so far: they come back (the same unknown id twice, an unknown id defined later)
     for _ in range(n_entries):
         r = rng.random()
+        if out and (invalid_rate > 0 or unknown_rate > 0) and rng.random() < 0.06:
+            j = rng.randrange(max(0, len(out) - 3), len(out))          # one of the last entries again, whatever it was
+            out.append(out[j])
+            if kinds is not None:
+                kd = kinds[j]
+                if kd == 'invalid' and len(out[j]) >= 16 and int.from_bytes(out[j][:8], 'little') in pool:
+                    kd = 'ok'             # an event whose id was unknown then and is defined by now
+                kinds.append(kd)
+            continue
+        if kinds is not None:
+            kinds.append('invalid' if r < invalid_rate else 'ok')
         if r < invalid_rate:
-            out.append(rand_invalid(rng, pool))
+            out.append(rand_invalid(rng, pool, bad))
             continue
         if r < invalid_rate + unknown_rate:
             out.append(rand_unknown_special(rng))
@@ -82,6 +94,8 @@ def rand_log(rng, n_entries=None, invalid_rate=0.0, unknown_rate=0.0, max_args=6
         k = rng.randrange(10)
         if k < 3 or not pool:
             id = rand_id(rng, pool)
+            if bad and rng.random() < 0.15:
+                id = rng.choice(bad)                  # an id that events referred to before it was defined
             pool.append(id)
             out.append(rand_source(rng, id))
         elif k == 3:
@@ -95,13 +109,21 @@ def rand_log(rng, n_entries=None, invalid_rate=0.0, unknown_rate=0.0, max_args=6
     return out
 
 
-def rand_invalid(rng, pool):
+def rand_invalid(rng, pool, bad=None):
     k = rng.randrange(6)
     if k == 0:   # payload shorter than a tag
         return bytes(rng.randrange(256) for _ in range(rng.randrange(1, 8)))
-    if k == 1:   # event with unknown id
+    if k == 1 or (k == 5 and bad):   # event with unknown id: a new one, or (half of the time) one that was used before
         cand = rng.randrange(1 << 63)
-        return event_payload(cand if cand not in pool else cand ^ 1, rng.randrange(100), rand_bytes(rng))
+        if bad and rng.random() < 0.6:
+            cand = rng.choice(bad)
+        elif pool and rng.random() < 0.3:
+            cand = (rng.choice(pool) + rng.choice([1, -1])) % (1 << 63)
+        while cand in pool:
+            cand ^= 1 << rng.randrange(63)
+        if bad is not None:
+            bad.append(cand)
+        return event_payload(cand, rng.randrange(100), rand_bytes(rng))
     if k == 2 and pool:   # event too short for a clock
         return u64(rng.choice(pool)) + bytes(rng.randrange(256) for _ in range(rng.randrange(0, 8)))
     # truncated metadata payload
